@@ -9,6 +9,8 @@ VARIABLES s, done
 Long(n, lead) == [i \in 1..lead |-> 32] \o [i \in 1..n |-> 97 + (i % 7)]
 LongCases == {<<97, 10>> \o Long(n, l) \o <<10, 98>> : n \in {197, 199, 200, 201, 203, 260}, l \in {0, 2}}
              \cup {Long(n, 0) : n \in {200, 201}} \cup {[i \in 1..250 |-> 98] \o <<13, 10>> \o Long(230, 0)}
+\* a first line far longer than any look-ahead window, then short lines, for each kind of line end
+FarCases == {[i \in 1..n |-> 97 + (i % 5)] \o nl \o <<32, 32, 50, 44>> \o nl \o <<32, 32, 120>> \o nl \o <<93>> : n \in {511, 512, 600, 1100}, nl \in {<<10>>, <<13>>, <<13, 10>>}}
 Init == s = <<>> /\ done = FALSE
 Emit(c) == \A p \in 1..Len(c) : PrintT("@@CASE " \o ToJson([content |-> c, pos |-> p - 1, want |-> Render(c, p)]))
 Next == \/ /\ Len(s) < MaxLen /\ ~done
@@ -16,6 +18,8 @@ Next == \/ /\ Len(s) < MaxLen /\ ~done
            /\ done' = FALSE
         \/ /\ s = <<>> /\ ~done /\ done' = TRUE /\ s' = s
            /\ \A c \in LongCases : \A p \in {1, 2, 3, 100, 199, 200, 201, 204, 230, Len(c) - 1, Len(c)} : p <= Len(c) =>
+                PrintT("@@CASE " \o ToJson([content |-> c, pos |-> p - 1, want |-> Render(c, p)]))
+           /\ \A c \in FarCases : \A p \in {1, 300, Len(c) - 10, Len(c) - 8, Len(c) - 5, Len(c) - 3, Len(c) - 2, Len(c)} :
                 PrintT("@@CASE " \o ToJson([content |-> c, pos |-> p - 1, want |-> Render(c, p)]))
 Spec == Init /\ [][Next]_<<s, done>>
 \* sanity of the requirement: the caret column never points past the shown text
